@@ -360,6 +360,7 @@ func rewriteFile(p *packages.Package, f *ast.File, name string) {
 var probePoints = map[[2]string]string{
 	{"sketch", "frequency"}: "sketch.frequency", // C18: which estimates an eviction decision looked at
 	{"cache", "evictNode"}:   "cache.evictNode",  // C18: every attempt to evict a node for size (argument: the node)
+	{"policy", "evictNodes"}: "policy.evictNodes", // C18: beginning of one run of the eviction loop (arrivals are what enters the main region after it)
 }
 
 func probeName(fd *ast.FuncDecl) (string, bool) {
